@@ -408,6 +408,35 @@ Section Dist.
     { unfold m. rewrite <- (rn_id 1 F1). apply rn_mono. apply IZR_le. lia. }
     assert (Hd : 0 <= rn (u - l)).
     { rewrite <- (rn_id 0 F0). apply rn_mono. lra. }
+    assert (Fd : F (rn (u - l))) by apply rn_F.
+    set (d := rn (u - l)) in *.
+    assert (Hk1 : 0 <= rn (IZR k) <= m).
+    { split.
+      - rewrite <- (rn_id 0 F0). apply rn_mono. apply IZR_le. lia.
+      - unfold m. apply rn_mono. apply IZR_le. lia. }
+    set (kf := rn (IZR k)) in *.
+    assert (Hq : 0 <= rn (kf / m) <= 1).
+    { apply rn_between; try assumption. split.
+      - apply Rmult_le_pos; [lra | apply Rlt_le, Rinv_0_lt_compat; lra].
+      - apply Rmult_le_reg_r with m; [lra |]. unfold Rdiv. rewrite Rmult_assoc, Rinv_l by lra. lra. }
+    set (q := rn (kf / m)) in *.
+    assert (Hp : 0 <= rn (q * d) <= d).
+    { apply rn_between; try assumption. split; nra. }
+    split.
+    - rewrite <- (rn_id l Fl) at 1. apply rn_mono. lra.
+    - apply rn_mono. lra.
+  Qed.
+
+  Lemma uniform_real_old_range l u k :
+    F l -> l <= u -> (0 <= k <= 4294967295)%Z ->
+    l <= uniform_real_old rn l u k <= uniform_real_old_hi rn l u.
+  Proof.
+    intros Fl Hlu Hk. unfold uniform_real_old, uniform_real_old_hi.
+    set (m := rn (IZR 4294967295)).
+    assert (Hm : 1 <= m).
+    { unfold m. rewrite <- (rn_id 1 F1). apply rn_mono. apply IZR_le. lia. }
+    assert (Hd : 0 <= rn (u - l)).
+    { rewrite <- (rn_id 0 F0). apply rn_mono. lra. }
     set (d := rn (u - l)) in *.
     assert (Hs : 0 <= rn (d / m)).
     { rewrite <- (rn_id 0 F0). apply rn_mono. apply Rmult_le_pos; [exact Hd |].
@@ -442,6 +471,32 @@ Lemma uniform_real_range32 l u k :
   format32 l -> l <= u -> (0 <= k <= 4294967295)%Z ->
   l <= uniform_real rnd l u k <= uniform_real_hi rnd l u.
 Proof. apply (uniform_real_range rnd format32); dist_hyps. Qed.
+
+(* the denormal regime is covered: FLT rounding is monotone and the identity on the format there as
+   well, so the hypotheses of pcg_float_range exclude nothing but overflow (R has no largest float).
+   For a range [0, 2^e] with ANY representable width, denormal ones included, the bound is upper itself *)
+Lemma pcg_float_hi_zero upper : format32 upper -> pcg_float_hi rnd 0 upper = upper.
+Proof.
+  intro Fu. unfold pcg_float_hi. rewrite Rminus_0_r, (rnd_id upper Fu), Rplus_0_r. apply rnd_id. exact Fu.
+Qed.
+
+Lemma pcg_float_tiny_range e k : (-149 <= e)%Z -> (0 <= k < 2 ^ 32)%Z ->
+  0 <= pcg_float rnd 0 (bpow radix2 e) k <= bpow radix2 e.
+Proof.
+  intros He Hk. pose proof (fmt_bpow e He) as Fu.
+  pose proof (pcg_float_range32 0 (bpow radix2 e) k fmt_0 (bpow_ge_0 radix2 e) Hk) as H.
+  rewrite (pcg_float_hi_zero _ Fu) in H. exact H.
+Qed.
+
+Lemma uniform_real_tiny_range e k : (-149 <= e)%Z -> (0 <= k <= 4294967295)%Z ->
+  0 <= uniform_real rnd 0 (bpow radix2 e) k <= bpow radix2 e.
+Proof.
+  intros He Hk. pose proof (fmt_bpow e He) as Fu.
+  assert (E : uniform_real_hi rnd 0 (bpow radix2 e) = bpow radix2 e).
+  { unfold uniform_real_hi. rewrite Rminus_0_r, (rnd_id _ Fu), Rplus_0_l. apply rnd_id. exact Fu. }
+  pose proof (uniform_real_range32 0 (bpow radix2 e) k fmt_0 (bpow_ge_0 radix2 e) Hk) as H.
+  rewrite E in H. exact H.
+Qed.
 
 (* ------------------------------------------------ definitional kernels *)
 Lemma sign_def x : (x < 0 -> sign x = -1) /\ (0 <= x -> sign x = 1).
